@@ -15,7 +15,8 @@ one of the options, and every statement of the comment-only emitters these branc
   2 emitter          call of write_doxygen / write_doxygen_file / document_stmts / a local helper of an emitter
   3 local-temp       assignment to a local name that is read only inside option-guarded blocks, from a call-free
                      expression or a known printing method (gen_decl, join, format, split, ...)
-  4 flag             assignment of a constant to a local name that is read only in `if` tests (becomes a guard itself)
+  4 flag             assignment of a constant to a local name that is read only in `if` tests (becomes a guard itself);
+                     break/continue of a loop whose whole body is one guarded `if` holding only such assignments
   5 control          nested if / for / pass whose statements are listed separately
   6 option-set       assignment to the option attribute itself (config.write_version = ...); every use is in table 2
   7 allow-listed     see ALLOW below: justified by hand, discharged by the differential check of tools/props/c16.py
@@ -61,9 +62,6 @@ ALLOW = {
     # todict.py writes the JSON dump (<library>.json), which is a log of the run, not a wrapper source.
     ("todict.py", "visit_FunctionNode", "add_non_none_fields(node, d, [..."):
         "JSON dump of the run only",
-    # wrapf.py dump_generic_interfaces: the loop only computes the flag `literalinclude`
-    # (any generic in the group has the option); `break` leaves that flag-search loop.
-    ("wrapf.py", "dump_generic_interfaces", "break"): "leaves a loop whose only effect is the flag literalinclude",
     # wrapl.py wrap_function: `for node in overloads:` under the debug / doxygen guard rebinds the local name
     # `node`.  After the two guarded loops `node` is read only by the test `node.options.doxygen` (whose body is
     # comment-only), so the rebinding can move doxygen comments between overloads but cannot change code.
@@ -258,6 +256,20 @@ class FileScan:
 
         if isinstance(st, ast.Pass):
             return row("control")
+        if isinstance(st, (ast.Break, ast.Continue)):
+            # leaving a loop under a guard is neutral only for a pure flag search: the loop body is exactly one
+            # guarded `if` whose statements are constant flag assignments and this break.  A loop that does any
+            # other work (which the break would skip) is class OTHER.
+            loop = st
+            while loop is not None and not isinstance(loop, (ast.For, ast.While)):
+                loop = getattr(loop, "_parent", None)
+            pure = (loop is not None and len(loop.body) == 1 and not loop.orelse and isinstance(loop.body[0], ast.If)
+                    and bool(self.mentions(loop.body[0].test, func)) and not loop.body[0].orelse
+                    and all(isinstance(x, (ast.Break, ast.Continue)) or
+                            (isinstance(x, ast.Assign) and len(x.targets) == 1 and isinstance(x.targets[0], ast.Name)
+                             and isinstance(x.value, ast.Constant) and isinstance(x.value.value, bool))
+                            for x in loop.body[0].body))
+            return row("flag" if pure else "OTHER", text + (" (flag-search loop)" if pure else " (loop does other work)"))
         if isinstance(st, ast.If):
             row("control", "if " + ast.unparse(st.test))
             for s in st.body + st.orelse:
